@@ -44,7 +44,13 @@ PROBE = 0          # listener id of the observer: registered first on the applic
 
 IN_PROTOS = ['xml', 'soap11', 'soap12', 'json', 'yaml', 'msgpack', 'msgpackrpc', 'http']
 OUT_PROTOS = ['xml', 'soap11', 'soap12', 'json', 'yaml', 'msgpack', 'msgpackrpc', 'http']
-SHAPES = ['void', 'none', 'value', 'generator', 'emptyGenerator', 'ignored']
+SHAPES = ['void', 'none', 'value', 'generator', 'emptyGenerator', 'ignored', 'multi']
+SIGS = {'void': {'shape': 'void'}, 'single': {}, 'multi': {'shape': 'multi'}, 'outBare': {'style': 'out_bare'}}
+
+
+def sig_of(case):
+    return 'void' if case.get('shape') == 'void' else 'multi' if case.get('shape') == 'multi' else \
+        'outBare' if case.get('style') == 'out_bare' else 'single'
 SPELLINGS = ['_evmgr', '_event_manager', '_evmgrs', '_event_managers']   # singular ones first
 LEAN_SPELLING = {'_evmgr': 'evmgr', '_event_manager': 'eventManager', '_evmgrs': 'evmgrs', '_event_managers': 'eventManagers'}
 XML_FAMILY = ('xml', 'soap11', 'soap12')
@@ -283,18 +289,26 @@ class Env:
                 return (x for x in [])
             if shape == 'ignored':
                 return Ignored('r%s' % (a,))
+            if shape == 'multi':
+                return 'r%s' % (a,), 7
             return 'r%s' % (a,)
         kw = {} if shape == 'void' else {'_returns': Iterable(Unicode)} if shape in ('generator', 'emptyGenerator') \
-            else {'_returns': Unicode}
+            else {'_returns': (Unicode, Integer)} if shape == 'multi' else {'_returns': Unicode}
+        if style == 'out_bare':
+            kw['_body_style'] = 'out_bare'
         self.meth_mgrs = list(meth_mgrs)     # (the descriptor appends the service class's manager to the list it is given)
         if meth_mgrs:
             sp = world.get('spelling', '_evmgrs')
             kw[sp] = meth_mgrs[0] if sp in ('_evmgr', '_event_manager') else meth_mgrs
         classes = ()
-        if kind == 'mrpc':
+        if kind in ('mrpc', 'mrpcsvc'):
             # a method of a ComplexModel class (Application.call_wrapper's @mrpc branch): no service class manager
             if dispatch_real == 'when-false':
                 kw['_when'] = lambda self, ctx: False
+            if kind == 'mrpcsvc':
+                # ... bound to a service class: that class's (own and inherited) listeners are heard as well
+                self.owner_cls = make_class(world['svc'], 'Owner')
+                kw['_service_class'] = self.owner_cls
 
             class Thing(ComplexModel):
                 __namespace__ = 'tns'
@@ -305,7 +319,11 @@ class Env:
                 def __respawn__(cls, ctx=None, filters=None):
                     return None if dispatch_real == 'respawn-none' else cls(i=7)
             self.method_name = 'Thing.op'
-            self.svc_cls = make_class(world['svc'], 'Svc', {'get': rpc(_returns=Thing)(lambda ctx: None)})
+            self.thing_cls = Thing
+            self.svc_cls = make_class({'regs': []} if kind == 'mrpcsvc' else world['svc'], 'Svc',
+                                      {'get': rpc(_returns=Thing)(lambda ctx: None)})
+            if kind == 'mrpcsvc':
+                self.svc_cls, self.exposing_cls = self.owner_cls, self.svc_cls
         else:
             self.method_name = 'op'
             if style == 'empty':
@@ -318,7 +336,7 @@ class Env:
         self.inp = make_proto(inp, validator)
         self.outp = make_proto(outp, validator)
         self.inp_name, self.outp_name, self.msgpack_keys = inp, outp, msgpack_keys
-        self.app = Application([self.svc_cls], 'tns', in_protocol=self.inp, out_protocol=self.outp)
+        self.app = Application([getattr(self, 'exposing_cls', self.svc_cls)], 'tns', in_protocol=self.inp, out_protocol=self.outp)
         register(self.app.event_manager, 'app', world['app'].get('regs', []), world['app'].get('ops', ()))
         register(self.inp.event_manager, 'inprot', world['inprot'].get('regs', []), world['inprot'].get('ops', ()))
         register(self.outp.event_manager, 'outprot', world['outprot'].get('regs', []), world['outprot'].get('ops', ()))
@@ -457,6 +475,128 @@ def apply_ops(mgr, ops, fn, on_fire=None):
     return raised
 
 
+# the witness scenarios of SpyneModel.Events.reentrantScenarios (handler set, one-shot programs)
+REENTRANT_SCENARIOS = [([1, 3], {1: [['add', 2]]}), ([1, 2, 3], {1: [['del', 2]]}), ([1, 2], {1: [['del', 1]]}),
+                       ([1, 2, 3], {1: [['del', 1], ['del', 2]]}), ([1], {1: [['del', 1], ['add', 2]]}),
+                       ([1], {1: [['add', 2], ['del', 1]]}), ([1, 2], {1: [['del', 1], ['add', 1]], 2: [['add', 3]]})]
+
+
+def real_refire(s, prog, limit=300):
+    """one firing of a real EventManager whose listeners register / unregister listeners of the event being fired
+    (each at its first call); returns (calls, what a second, quiet firing calls, exception class or None)"""
+    from spyne.evmgr import EventManager
+    m = EventManager(None)
+    calls, ran, fns = [], set(), {}
+
+    def fn(h):
+        if h not in fns:
+            def f(ctx, h=h):
+                calls.append(h)
+                if len(calls) > limit:
+                    raise Boom('endless firing')
+                if h not in ran:
+                    ran.add(h)
+                    for op, k in prog.get(h, []):
+                        if op == 'add':
+                            m.add_listener('e', fn(k))
+                        else:
+                            try:
+                                m.del_listener('e', fn(k))
+                            except KeyError:
+                                pass
+            fns[h] = f
+        return fns[h]
+    for h in s:
+        m.add_listener('e', fn(h))
+    exc = None
+    try:
+        m.fire_event('e', None)
+    except Exception as e:
+        exc = type(e).__name__
+    first = list(calls)
+    del calls[:]
+    ran.update(range(1000))
+    try:
+        m.fire_event('e', None)
+    except Exception as e:
+        exc = exc or type(e).__name__
+    return first, list(calls), exc
+
+
+def reentrant_checks(ctx):
+    """T2 + T3 for listeners that change the handler set while it fires"""
+    rng = ctx.rng
+    Q = []
+    scen = [(s, p) for s, p in REENTRANT_SCENARIOS]
+    # one-shot listeners, listeners that install a successor, at every position
+    for n in (1, 2, 3, 4):
+        for i in range(n):
+            s = list(range(1, n + 1))
+            scen += [(s, {s[i]: [['del', s[i]]]}), (s, {s[i]: [['add', 9]]}), (s, {s[i]: [['del', s[i]], ['add', 9]]}),
+                     (s, {s[i]: [['add', 9], ['del', s[i]]]}), (s, {s[i]: [['del', s[(i + 1) % n]]]})]
+    for _ in range(4000 if ctx.thorough else 500):
+        s = rng.sample(range(1, 7), rng.randrange(0, 5))
+        scen.append((s, {h: [[rng.choice(['add', 'del']), rng.randrange(1, 8)] for _ in range(rng.choice([0, 0, 1, 2, 3, 4]))]
+                         for h in range(1, 8)}))
+    for s, prog in scen:
+        prog = {h: ops for h, ops in prog.items() if ops}
+        first, second, exc = real_refire(s, prog)
+        fuel = len(s) + sum(len(o) for o in prog.values()) + 2
+        q = {'op': 'refire', 's': s, 'prog': [[h, ops] for h, ops in sorted(prog.items())], 'fuel': fuel}
+        Q.append((q, {'ok': {'calls': first, 'live': second, 'done': True}}))
+        ctx.case(q, nontrivial=bool(prog))
+        ctx.hit('op:refire')
+        ctx.cov['traces_validated_against_impl'] += 1
+        # T3: registered before the firing and not removed during it -> called exactly once; no exception
+        removed = {k for ops in prog.values() for op, k in ops if op == 'del'}
+        wrong = [h for h in s if h not in removed and first.count(h) != 1]
+        if exc or wrong:
+            ctx.finding('listeners:reentrant', 'handlers %s, where listeners change the set while it fires (%s): called %s%s; '
+                        'listeners %s were registered before and not removed but did not run exactly once' % (
+                            s, json.dumps(prog), first, ', raised ' + exc if exc else '', wrong),
+                        {'op': 'refire', 's': s, 'prog': {str(h): o for h, o in prog.items()}, 'calls': first, 'exception': exc})
+    return Q
+
+
+def oneshot_pipeline_checks(ctx, keys):
+    """T3 in the real pipeline: a method_call listener that unregisters itself (and may install a successor) with one
+    more listener registered after it; two requests to the same application"""
+    for inp, transport, successor in (('xml', 'wsgi', False), ('json', 'serverbase', True), ('soap11', 'wsgi', True)):
+        w = quiet_world()
+        env = Env(inp, inp, w)
+        mgr = env.app.event_manager
+        seen = []
+
+        def later(c):
+            seen.append(8)
+
+        def last(c):
+            seen.append(9)
+
+        def oneshot(c):
+            seen.append(7)
+            mgr.del_listener('method_call', oneshot)
+            if successor:
+                mgr.add_listener('method_call', later)
+        mgr.add_listener('method_call', oneshot)
+        mgr.add_listener('method_call', last)
+        body, http = request(inp, 'ok', keys)
+        got = []
+        for _ in range(2):
+            del seen[:]
+            n = env.user_returns
+            res = env.run_wsgi(body, http) if transport == 'wsgi' else env.run_serverbase(body)
+            got.append((list(seen), env.user_returns - n, res['escaped']))
+        want = [([7, 9] + ([8] if successor else []), 1, None), ([9] + ([8] if successor else []), 1, None)]
+        ctx.case({'op': 'oneshot-pipeline', 'inp': inp, 'transport': transport, 'successor': successor})
+        ctx.cov['traces_validated_against_impl'] += 1
+        if got != want:
+            ctx.finding('listeners:reentrant-pipeline', 'a method_call listener that unregisters itself%s, followed by another '
+                        'listener: two requests show (listeners called, function runs, escaped) = %s, expected %s [%s, %s]' % (
+                            ' and installs a successor' if successor else '', got, want, inp, transport),
+                        {'op': 'oneshot-pipeline', 'inp': inp, 'transport': transport, 'successor': successor, 'got': got})
+
+
 def make_proto(name, validator='soft'):
     from spyne.protocol.xml import XmlDocument
     from spyne.protocol.soap import Soap11, Soap12
@@ -474,13 +614,13 @@ def request(inp, variant, msgpack_keys='bytes', kind='rpc', style='wrapped'):
     import msgpack
     if isinstance(variant, (bytes, bytearray)):
         return bytes(variant), None
-    if kind == 'mrpc' or style != 'wrapped':
+    if kind in ('mrpc', 'mrpcsvc') or style in ('bare', 'empty'):
         # other shapes of the method (XML family and JSON only)
-        name = 'Thing.op' if kind == 'mrpc' else 'op'
+        name = 'Thing.op' if kind != 'rpc' else 'op'
         if inp == 'json':
-            doc = {'self': {'i': 3}} if kind == 'mrpc' else (5 if style == 'bare' else {})
+            doc = {'self': {'i': 3}} if kind != 'rpc' else (5 if style == 'bare' else {})
             return json.dumps({name: doc}).encode(), None
-        inner = '<self><i>3</i></self>' if kind == 'mrpc' else ('5' if style == 'bare' else '')
+        inner = '<self><i>3</i></self>' if kind != 'rpc' else ('5' if style == 'bare' else '')
         call = '<%s xmlns="tns">%s</%s>' % (name, inner, name)
         if inp == 'xml':
             return call.encode(), None
@@ -666,7 +806,8 @@ def mgr_json(spec):
 def world_json(w):
     return {'app': mgr_json(w['app']), 'meths': [mgr_json(m) for m in w['meths']], 'svc': mgr_json(w['svc']),
             'inprot': mgr_json(w['inprot']), 'outprot': mgr_json(w['outprot']), 'trans': mgr_json(w['trans']),
-            'raises': [list(r) for r in w.get('raises', [])], 'spelling': w.get('spelling', '_evmgrs')}
+            'raises': [list(r) for r in w.get('raises', [])], 'spelling': w.get('spelling', '_evmgrs'),
+            'mrpcsvc': bool(w.get('mrpcsvc'))}
 
 
 # ------------------------------------------------------------------------------------ T1 facts
@@ -720,14 +861,14 @@ def measure_facts(msgpack_keys):
 
     # Application.process_request, seven ways
     f['proc'] = {}
-    for name, user, raises in (('ok', 'ok', ()), ('callRaise fault', 'ok', (('method_call', 'fault'),)),
+    for sig, name, user, raises in ((sg,) + t for sg in SIGS for t in (('ok', 'ok', ()), ('callRaise fault', 'ok', (('method_call', 'fault'),)),
                                ('callRaise exc', 'ok', (('method_call', 'exc'),)),
                                ('dispatchRaise fault', 'ok', ()), ('dispatchRaise exc', 'ok', ()),
                                ('userRaise fault', 'fault', ()), ('redirect', 'redirect', ()), ('redirectFail', 'redirectfail', ()),
                                ('userRaise exc', 'exc', ()), ('retRaise fault', 'ok', (('method_return_object', 'fault'),)),
-                               ('retRaise exc', 'ok', (('method_return_object', 'exc'),))):
+                               ('retRaise exc', 'ok', (('method_return_object', 'exc'),)))):
         env = Env('xml', 'xml', quiet_world(raises), user=user,
-                  stage_inj=('dispatch', name.split()[1]) if name.startswith('dispatch') else None)
+                  stage_inj=('dispatch', name.split()[1]) if name.startswith('dispatch') else None, **SIGS[sig])
         n = len(env.trace)
         esc = False
         try:
@@ -736,7 +877,7 @@ def measure_facts(msgpack_keys):
             env.app.process_request(p)
         except Exception:
             esc = True
-        f['proc'][name] = (probe_syms(env.trace, n), esc)
+        f['proc'][(sig, name)] = (probe_syms(env.trace, n), esc)
 
     # ServerBase.finalize_context through get_out_string: ok / fault  x  out_string set / left None by the protocol
     f['fin'] = {}
@@ -832,6 +973,17 @@ def measure_facts(msgpack_keys):
         except Exception:
             f['spellingReaches'][sp] = False
 
+    # listeners that change the handler set while it fires: the witness scenarios
+    f['reentrantCalls'] = [real_refire(sc, pr)[0] for sc, pr in REENTRANT_SCENARIOS]
+
+    # @mrpc(_service_class=S): S's manager reaches the descriptor
+    try:
+        env = Env('xml', 'xml', quiet_world(), kind='mrpcsvc')
+        d = env.thing_cls.Attributes.methods['op']
+        f['mrpcServiceReaches'] = any(m is env.owner_cls.event_manager for m in d.event_managers)
+    except Exception:
+        f['mrpcServiceReaches'] = False
+
     # the output protocols' own events and whether they leave ctx.out_string None, per result shape / for a fault /
     # before a failing serialize raises
     f['serOk'], f['serErr'], f['serPartial'], f['leavesNone'], f['leavesNoneFault'] = {}, {}, {}, {}, {}
@@ -849,19 +1001,19 @@ def measure_facts(msgpack_keys):
         env.run_wsgi(request('xml', 'ok')[0])
         f['serErr'][outp] = own(env.trace)
         f['leavesNoneFault'][outp] = bool(env.out_none) and env.out_none[-1] == (True, True)
-        env = Env('xml', outp, w, user='unser')
-        env.run_serverbase(request('xml', 'ok')[0])
-        f['serPartial'][outp] = own(env.trace) if any(st[0] == 'serialize' and st[2] for st in env.stages) else []
+        f['serPartial'][outp] = []
+        for kw in ({'user': 'unser'}, {'style': 'out_bare'}, {'shape': 'multi'}, {'shape': 'generator'}):
+            # any result this protocol cannot serialise: what it fires before it raises
+            env = Env('xml', outp, w, **kw)
+            env.run_serverbase(request('xml', 'ok')[0])
+            if any(st[0] == 'serialize' and st[2] for st in env.stages):
+                f['serPartial'][outp] = own(env.trace)
+                break
     return f
 
 
-GOOD_FACTS = {
-    'ctxInit': ['method_context_created'], 'ctxClose': ['method_context_closed'],
-    'fin': {(False, False): ['method_return_document', 'method_return_string'],
-            (False, True): ['method_return_document', 'method_return_string'],
-            (True, False): ['method_exception_document', 'method_exception_string'],
-            (True, True): ['method_exception_document', 'method_exception_string']},
-    'proc': {'ok': (['method_call', 'user', 'method_return_object'], False),
+PROC_GOOD = {
+'ok': (['method_call', 'user', 'method_return_object'], False),
              'callRaise fault': (['method_call', 'method_exception_object'], False),
              'callRaise exc': (['method_call', 'method_exception_object'], False),
              'dispatchRaise fault': (['method_call', 'method_exception_object'], False),
@@ -871,7 +1023,14 @@ GOOD_FACTS = {
              'redirectFail': (['method_call', 'user', 'method_redirect_exception'], False),
              'userRaise exc': (['method_call', 'user', 'method_exception_object'], False),
              'retRaise fault': (['method_call', 'user', 'method_return_object', 'method_exception_object'], False),
-             'retRaise exc': (['method_call', 'user', 'method_return_object', 'method_exception_object'], False)},
+             'retRaise exc': (['method_call', 'user', 'method_return_object', 'method_exception_object'], False)}
+GOOD_FACTS = {
+    'proc': {(sg, k): v for sg in ['void', 'single', 'multi', 'outBare'] for k, v in PROC_GOOD.items()},
+    'ctxInit': ['method_context_created'], 'ctxClose': ['method_context_closed'],
+    'fin': {(False, False): ['method_return_document', 'method_return_string'],
+            (False, True): ['method_return_document', 'method_return_string'],
+            (True, False): ['method_exception_document', 'method_exception_string'],
+            (True, True): ['method_exception_document', 'method_exception_string']},
     'genCtx': {'fault': (['method_exception_object'], False), 'exc': (['method_exception_object'], False)},
     'getIn': {'fault': (['method_exception_object'], False), 'exc': (['method_exception_object'], False)},
     'wsgiSerFail': (['method_exception_object'], False),
@@ -880,6 +1039,8 @@ GOOD_FACTS = {
     'wsdlFailSteps': [('ctx', 'method_context_created'), ('transport', 'wsdl_exception'), ('ctx', 'method_context_closed')],
     'wsgiRefuse': {'fault': (['method_exception_object'], False), 'exc': (['method_exception_object'], False)},
     'spellingReaches': {sp: True for sp in ['_evmgr', '_event_manager', '_evmgrs', '_event_managers']},
+    'mrpcServiceReaches': True,
+    'reentrantCalls': [[1, 3, 2], [1, 3], [1, 2], [1, 2, 3], [1], [1, 2], [1, 2, 1, 3]],
 }
 LEAN_OUTP = {'xml': 'xml', 'soap11': 'soap11', 'soap12': 'soap12', 'json': 'json', 'yaml': 'yaml', 'msgpack': 'msgpack',
              'msgpackrpc': 'msgpackRpc', 'http': 'httpRpc'}
@@ -900,7 +1061,7 @@ def lean_meas(m):
 def facts_lean(f):
     evs = lambda l: '[%s]' % ', '.join(lean_ev(e) for e in l if e != 'user')
     b = lambda x: 'true' if x else 'false'
-    proc = '\n'.join('    | .%s => %s' % (' .'.join(k.split()), lean_meas(v)) for k, v in f['proc'].items())
+    proc = '\n'.join('    | .%s, .%s => %s' % (sg, ' .'.join(k.split()), lean_meas(v)) for (sg, k), v in f['proc'].items())
     fin = '\n'.join('    | %s, %s => %s' % (b(k[0]), b(k[1]), evs(v)) for k, v in f['fin'].items())
     ser_ok = '\n'.join('    | .%s, .%s => %s' % (LEAN_OUTP[o], sh, evs(v)) for (o, sh), v in f['serOk'].items())
     ser_err = '\n'.join('    | .%s => %s' % (LEAN_OUTP[o], evs(v)) for o, v in f['serErr'].items())
@@ -915,7 +1076,7 @@ open SpyneModel.Events
 def facts14 : Facts14 where
   ctxInit := %s
   ctxClose := %s
-  proc := fun pc => match pc with
+  proc := fun sg pc => match sg, pc with
 %s
   fin := fun fault none => match fault, none with
 %s
@@ -936,6 +1097,8 @@ def facts14 : Facts14 where
     | .exc => %s
   spellingReaches := fun sp => match sp with
 %s
+  mrpcServiceReaches := %s
+  reentrantCalls := %s
   serOk := fun o sh => match o, sh with
 %s
   serErr := fun o => match o with
@@ -956,7 +1119,8 @@ end SpyneModel.Generated
        ', '.join('.fire %s %s' % ('(.ctx false)' if src == 'ctx' else '.transport', lean_ev(e)) for src, e in f['wsdlFailSteps']),
        lean_meas(f['wsgiRefuse']['fault']),
        lean_meas(f['wsgiRefuse']['exc']),
-       '\n'.join('    | .%s => %s' % (LEAN_SPELLING[k], b(v)) for k, v in f['spellingReaches'].items()), ser_ok, ser_err, ser_part, none_ok, none_err)
+       '\n'.join('    | .%s => %s' % (LEAN_SPELLING[k], b(v)) for k, v in f['spellingReaches'].items()),
+       b(f['mrpcServiceReaches']), json.dumps(f['reentrantCalls']), ser_ok, ser_err, ser_part, none_ok, none_err)
 
 
 def fact_witness_case(key, sub=None):
@@ -970,7 +1134,8 @@ def fact_witness_case(key, sub=None):
     elif key == 'wsgiSerFail':
         base['user'] = 'unser'
     elif key == 'proc':
-        what, _, kind = sub.partition(' ')
+        base.update(SIGS[sub[0]])
+        what, _, kind = sub[1].partition(' ')
         if what == 'userRaise':
             base['user'] = kind
         elif what == 'redirect':
@@ -990,6 +1155,9 @@ def fact_witness_case(key, sub=None):
         base['inj'] = {'type': 'wsdl', 'fail': True}
     elif key == 'wsgiRefuse':
         base['inj'] = {'type': 'refuse', 'variant': 'too-long-declared' if sub == 'fault' else 'stream-error'}
+    elif key == 'mrpcServiceReaches':
+        base.update(kind='mrpcsvc')
+        w['svc'] = {'regs': [['method_call', 5]]}
     elif key == 'spellingReaches':
         w['meths'] = [{'regs': [['method_call', 5]]}]
         w['spelling'] = sub
@@ -1176,6 +1344,8 @@ def gen_cases(ctx):
         w = gen_world(rng, raiser)
         if extra.get('kind') == 'mrpc':
             w['svc'] = {'regs': []}          # a method of a ComplexModel class has no service class
+        if extra.get('kind') == 'mrpcsvc':
+            w['mrpcsvc'] = True              # ... unless it is bound to one with _service_class=
         cases.append(dict({'inp': inp, 'outp': outp, 'transport': transport, 'inj': inj, 'user': user, 'shape': shape,
                            'world': w, 'label': label}, **extra))
 
@@ -1198,6 +1368,9 @@ def gen_cases(ctx):
                 add(inp, outp, transport, ok, rng.choice(['fault', 'exc']), None, 'shape+user', shape)
                 add(inp, outp, transport, {'type': 'forced', 'stage': rng.choice(PRE_STAGES + ['dispatch', 'serialize']),
                                            'kind': rng.choice(['fault', 'exc'])}, 'ok', None, 'shape+forced', shape)
+            # a bare output message
+            add(inp, outp, transport, ok, 'ok', rng.choice(raisers[:5]), 'out-bare', style='out_bare')
+            add(inp, outp, transport, ok, rng.choice(['fault', 'exc']), None, 'out-bare', style='out_bare')
             # the function raises a Redirect (do_redirect works / raises)
             for user in ('redirect', 'redirectfail'):
                 add(inp, outp, transport, ok, user, None, 'redirect', rng.choice(['value', 'none']))
@@ -1208,7 +1381,7 @@ def gen_cases(ctx):
                     add(inp, outp, transport, ok, 'genraise-' + k, rng.choice(raisers[:2]), 'genraise', 'generator')
             # other kinds of method: bare / empty body style, @mrpc method of a ComplexModel class
             if inp in ALT_FORM_INPUTS:
-                for extra in ({'style': 'bare'}, {'style': 'empty'}, {'kind': 'mrpc'}):
+                for extra in ({'style': 'bare'}, {'style': 'empty'}, {'kind': 'mrpc'}, {'kind': 'mrpcsvc'}):
                     if not combo_ok(inp, extra):
                         ctx.hit('method-kind-form-not-usable:%s:%s' % (inp, list(extra.values())[0]))
                         continue
@@ -1386,6 +1559,7 @@ def case_query(case, inj):
     if case['inj']['type'] == 'wsdl':
         return {'op': 'wsdl', 'fails': bool(case['inj'].get('fail')), 'world': world_json(case['world'])}
     return {'op': 'trace', 'outp': case['outp'], 'transport': case['transport'], 'shape': case.get('shape', 'value'),
+            'sig': sig_of(case),
             'stage': inj[0], 'kind': inj[1],
             'inner': inj[2], 'world': world_json(case['world'])}
 
@@ -1447,6 +1621,8 @@ def run(ctx):
         ctx.cov['traces_validated_against_impl'] += 1
     # late registrations: on a base after the subclass exists (not inherited), on the subclass (base unaffected)
     Q += late_checks(ctx)
+    Q += reentrant_checks(ctx)
+    oneshot_pipeline_checks(ctx, keys)
 
     # ---- T2 (b) + T3: the pipeline
     cases = gen_cases(ctx)
@@ -1588,6 +1764,12 @@ def replay(ctx, obj):
         except Exception as e:
             print('model    : not available (%s)' % e)
         return 1 if r else 0
+    if obj.get('op') == 'refire':
+        prog = {int(h): o for h, o in obj['prog'].items()}
+        first, second, exc = real_refire(obj['s'], prog)
+        print('impl calls', first, 'then', second, 'exception', exc)
+        removed = {k for ops in prog.values() for op, k in ops if op == 'del'}
+        return 1 if exc or any(first.count(h) != 1 for h in obj['s'] if h not in removed) else 0
     if obj.get('op') == 'mgr':
         impl, _, _, fires = real_history(obj['spec'], [obj['event']])
         if 'fire_index' in obj:
